@@ -103,7 +103,7 @@ func genC14(t *rapid.T) C14Case {
 		case 11:
 			c.Toks = append(c.Toks, Tok{Flag: "D", Form: form()})
 		case 12:
-			c.Toks = append(c.Toks, Tok{Flag: "", Val: rapid.SampledFrom([]string{"extra", "--", "stray word", "-", "always,exit", "uid=0"}).Draw(t, "stray")})
+			c.Toks = append(c.Toks, Tok{Flag: "", Val: rapid.SampledFrom([]string{"extra", "--", "stray word", "-", "always,exit", "uid=0", "", "", " ", "0", "false"}).Draw(t, "stray")})
 		case 13:
 			c.Toks = append(c.Toks, Tok{Flag: "?", Val: rapid.SampledFrom([]string{"-x", "-Z", "--foo", "-aa", "-FF=uid=0", "-d"}).Draw(t, "unk")})
 		}
